@@ -102,6 +102,12 @@ func Canon(v ssa.Value) ssa.Value {
 				continue
 			}
 			return v
+		case *ssa.Parameter:
+			if b, ok := boundParam(x); ok {
+				v = b
+				continue
+			}
+			return v
 		default:
 			return v
 		}
@@ -277,12 +283,32 @@ func ClosureArg(v ssa.Value) *ssa.Function {
 	switch x := v.(type) {
 	case *ssa.MakeClosure:
 		if f, ok := x.Fn.(*ssa.Function); ok {
-			return f
+			return unwrapBound(f)
 		}
 	case *ssa.Function:
-		return x
+		return unwrapBound(x)
 	}
 	return nil
+}
+
+// unwrapBound: a method value (x.m used as a func) is a synthetic "$bound" wrapper that only forwards to
+// the method; rules want the method itself.
+func unwrapBound(f *ssa.Function) *ssa.Function {
+	if f.Synthetic == "" || len(f.Blocks) != 1 {
+		return f
+	}
+	var target *ssa.Function
+	n := 0
+	for _, in := range f.Blocks[0].Instrs {
+		if c, ok := in.(*ssa.Call); ok {
+			n++
+			target = c.Call.StaticCallee()
+		}
+	}
+	if n == 1 && target != nil && target.Blocks != nil {
+		return target
+	}
+	return f
 }
 
 // ---------- iteration ----------
